@@ -425,7 +425,7 @@ func malformed(g *GenCtx) {
 
 // ---------------------------------------------------------------- run
 
-const nVar = 4
+const nVar = 5
 
 type obj struct{ v [nVar]cipher.AEAD }
 
@@ -469,6 +469,10 @@ func (o *obj) seal(ad, p []byte) ([]byte, bool) {
 	copy(b3[len(prefix):], p)
 	r3 := o.v[3].Seal(b3[:len(prefix)], nil, b3[len(prefix):], ad)
 	ok = ok && len(r3) == len(prefix)+len(r0) && bytes.Equal(r3[:len(prefix)], prefix) && bytes.Equal(r3[len(prefix):], r0)
+	// 4: dst holds a prefix and has NO spare capacity (the result is reallocated): the prefix is kept
+	d4 := append(make([]byte, 0, len(prefix)), prefix...)
+	r4 := o.v[4].Seal(d4, nil, append([]byte{}, p...), ad)
+	ok = ok && len(r4) == len(prefix)+len(r0) && bytes.Equal(r4[:len(prefix)], prefix) && bytes.Equal(r4[len(prefix):], r0) && bytes.Equal(d4, prefix)
 	return r0, ok
 }
 
@@ -504,6 +508,13 @@ func (o *obj) open(ad, ct []byte) ([]byte, bool, bool) {
 	ok = ok && (e0 == nil) == (e3 == nil)
 	if e0 == nil && e3 == nil {
 		ok = ok && len(r3) == len(prefix)+len(r0) && bytes.Equal(r3[:len(prefix)], prefix) && bytes.Equal(r3[len(prefix):], r0)
+	}
+	// 4: dst with a prefix and no spare capacity
+	d4 := append(make([]byte, 0, len(prefix)), prefix...)
+	r4, e4 := o.v[4].Open(d4, nil, append([]byte{}, ct...), ad)
+	ok = ok && (e0 == nil) == (e4 == nil)
+	if e0 == nil && e4 == nil {
+		ok = ok && len(r4) == len(prefix)+len(r0) && bytes.Equal(r4[:len(prefix)], prefix) && bytes.Equal(r4[len(prefix):], r0)
 	}
 	return r0, e0 == nil, ok
 }
